@@ -84,6 +84,16 @@ CHECKS = {
               "Non-trivial = an authority was actually parsed (hostname reported); distinct by target string"),
         assumptions=["the request-line route is sampled, not enumerated; CONNECT authorities are compared case-insensitively (htp_parse_hostport lower-cases port-less hosts)"],
     ),
+    "C14": dict(
+        bins=["c14"], replay_bin="c14", campaigns=lambda tier, seed: [dict(name="c14", bin="c14", shards=16, timeout=2400)], level="exploration",
+        rule=("rapidcheck multipart/form-data bodies: boundary 1..70 chars from the RFC set (dash-heavy), 0..6 text/file parts, names/filenames with escaped quotes, "
+              "backslashes and high bytes, optional Content-Type, folded Content-Disposition, binary content enriched with CR/LF runs, delimiter prefixes and one-byte-off "
+              "look-alikes, optional preamble/epilogue, CRLF or LF line ends. Each body: single call vs AST, then every single cut (bodies <= 500 B), one byte per call and six "
+              "random multi-cuts, each compared with the AST and with the single-call result incl. flags; plus end-to-end POSTs (text parts == body parameters, file bytes == "
+              "FILE_DATA). Non-trivial = (body with look-alike / trailing CR-LF content, cut position) pairs; distinct by (wire bytes, cut)"),
+        assumptions=["the full delimiter does not occur in part content after an LF or at the start of content (libhtp accepts a bare LF before a boundary by design)",
+                     "with bare-LF line ends a part's content does not end in CR (ambiguous with a CRLF delimiter)"],
+    ),
     "C15": dict(
         bins=["c15"], replay_bin="c15", campaigns=lambda tier, seed: [dict(name="c15", bin="c15", shards=16, timeout=2400)], level="exploration",
         rule=("every string over {a = & % + 1 NUL} up to length 6 (thorough 7) x every single cut position x all 48 URLENCODED decoder configurations "
